@@ -54,11 +54,15 @@ def scenarios(tier, rng):
             for h in (True, False):
                 out.append({"id": "e%d" % i, "letters": [LETTERS[k] for k in seq], "handler": h, "slow": False})
                 i += 1
+                if h and ln <= 2:
+                    # the handler uses the client (publishes a reply) while the reader goroutine is inside it
+                    out.append({"id": "e%d" % i, "letters": [LETTERS[k] for k in seq], "handler": True, "slow": False, "reply": True})
+                    i += 1
     nrand = 3000 if tier == "quick" else 40000
     for j in range(nrand):
         ln = rng.randint(full + 1, 40 if j % 4 == 0 else 9)
         out.append({"id": "r%d" % j, "letters": [rng.choice(LETTERS) for _ in range(ln)], "handler": rng.random() < 0.8,
-                    "slow": rng.random() < 0.15})
+                    "slow": rng.random() < 0.15, "reply": rng.random() < 0.1})
     return out, i
 
 
